@@ -187,6 +187,13 @@ def equilibrium_range_values(
         return e, a1, b1
 
     elif method == "mean":
+        if len(spectrum.dims_space_time) == 0:
+            # a spectrum without leading dimensions: evaluate as a batch of one
+            e, a1, b1 = equilibrium_range_values(
+                spectrum.flatten(), method, fmax, power, number_of_bins
+            )
+            return e[0], a1[0], b1[0]
+
         scaled_spec = spectrum.variance_density * spectrum.frequency**power
 
         # Find fmin/fmax
